@@ -38,7 +38,7 @@ impl Prop for C10 {
     }
     fn budget(&self, tier: Tier) -> Budget {
         match tier {
-            Tier::Quick => Budget { cases: 320, max_tape: 512 },
+            Tier::Quick => Budget { cases: 480, max_tape: 512 },
             Tier::Thorough => Budget { cases: 10_000, max_tape: 768 },
         }
     }
@@ -60,6 +60,12 @@ impl Prop for C10 {
         let sim = RefSim::new(&case.ctx, &case.sys);
         let reach = reachability(&sim).map_err(|m| Failure::new("harness/c10-reach", m))?;
         let min_bad = reach.min_any_bad();
+        // the two shallow shapes make up over a third of what the generator yields: keep one in four
+        let shallow = min_bad == Some(0) || (min_bad.is_none() && reach.diameter == 0 && reach.reachable < 3);
+        if shallow && seed % 4 != 0 {
+            rec.exclude(if min_bad == Some(0) { "bad in the initial state (3 of 4 sub-sampled away)" } else { "safe with < 3 reachable states and diameter 0 (3 of 4 sub-sampled away)" });
+            return Ok(());
+        }
         if std::env::var("PV_DEBUG").is_ok() {
             use std::io::Write;
             if let Ok(mut f) = std::fs::OpenOptions::new().create(true).append(true).open("/tmp/pv_dbg.log") {
